@@ -99,6 +99,17 @@ Theorem C14_unpack_sequence_cells : forall (n : nat) (missing : val) (b : bool) 
   length cells = n /\ (forall j, (j < n)%nat -> nth j cells VNone = if (j <? length l)%nat then nth j l VNone else missing).
 Proof. exact unpack_cells_seq. Qed.
 
+(* the whole unpack operator: new fields appended to the header; row by row (same count, same order) the output is the source
+   row with the unpacked cells appended, the unpacked cell dropped unless include_original *)
+Theorem C14_unpack_model_exact : forall (field : val) (newfields : list val) (inc : bool) (missing : val) (hdr : row)
+    (rows : list row) (outt : table),
+  unpack_model field newfields inc missing (hdr :: rows) = (outt, None) ->
+  exists i kept o, outt = (kept ++ newfields) :: o /\
+    Forall2 (fun r out => unpack_row inc i (length newfields) missing r = Ok out) rows o /\
+    (0 <= i -> Forall2 (fun r out => exists v cells, py_nth r i = Some v /\ unpack_cells (length newfields) missing v = Ok cells /\
+                          out = (if inc then r else firstn (Z.to_nat i) r ++ skipn (S (Z.to_nat i)) r) ++ cells) rows o).
+Proof. exact unpack_model_exact. Qed.
+
 (* split / splitdown with a literal separator (split_on is the splitter of splitdown_model, split_cell its cell function):
    sep.join(parts) = s, no part contains sep, |parts| = 1 + occurrences of sep *)
 Theorem C14_split_parts_rejoin : forall sep s, join_with sep (split_on sep [] s) = s.
@@ -250,3 +261,4 @@ Print Assumptions C14_splitdown_row_count.
 Print Assumptions C14_melt_one_row_per_cell.
 Print Assumptions C14_melt_rectangular_row.
 Print Assumptions C14_melt_model_exact.
+Print Assumptions C14_unpack_model_exact.
